@@ -111,6 +111,15 @@ package core
 //@      (len(state.Include) == 0 || anyGroup(target.Labels, target.Test != nil, state.Include)) && \
 //@      !anyGroup(target.Labels, target.Test != nil, state.Exclude))
 
+// Used by the test-result reuse decisions (C11).
+//@ assume func (BuildTarget).State
+//@   pure
+//@ assume func (BuildTarget).TestResultsFile
+//@   pure
+//@ assume func (BuildTarget).CoverageFile
+//@   pure
+//@ assume func (Cache).Store
+
 // Used by the incrementality decisions (C01, C03).
 //@ assume func PathExists
 //@   pure
@@ -327,6 +336,7 @@ package core
 //
 // A target passes exactly when every case succeeded (in some execution) or was skipped.
 //@ func (TestCases).AllSucceeded
+//@   modifies nothing
 //@   invariant "range testCases" all: forall j int :: 0 <= j && j < idx ==> hasSuccess(testCases[j].Executions) || hasSkip(testCases[j].Executions)
 //@   ensures spec [C26]: result == (forall i int :: 0 <= i && i < len(testCases) ==> hasSuccess(testCases[i].Executions) || hasSkip(testCases[i].Executions))
 //
@@ -352,17 +362,21 @@ package core
 //@ spec rec countFailure(cs TestCases, n int) int = ite(n <= 0, 0, countFailure(cs, n - 1) + ite(isFailure(cs[n - 1]), 1, 0))
 //
 //@ func (TestSuite).Skips
+//@   modifies nothing
 //@   requires testSuite != nil
 //@   invariant "range testSuite.TestCases" count: skips == countSkipped(testSuite.TestCases, idx)
 //@   ensures spec [C26]: result == countSkipped(testSuite.TestCases, len(testSuite.TestCases))
 //@ func (TestSuite).Passes
+//@   modifies nothing
 //@   invariant "range testSuite.TestCases" count: passes == countPass(testSuite.TestCases, idx)
 //@   ensures spec [C26]: result == countPass(testSuite.TestCases, len(testSuite.TestCases))
 //@ func (TestSuite).Errors
+//@   modifies nothing
 //@   requires testSuite != nil
 //@   invariant "range testSuite.TestCases" count: errors == countError(testSuite.TestCases, idx)
 //@   ensures spec [C26]: result == countError(testSuite.TestCases, len(testSuite.TestCases))
 //@ func (TestSuite).Failures
+//@   modifies nothing
 //@   requires testSuite != nil
 //@   invariant "range testSuite.TestCases" count: failures == countFailure(testSuite.TestCases, idx)
 //@   ensures spec [C26]: result == countFailure(testSuite.TestCases, len(testSuite.TestCases))
